@@ -268,11 +268,13 @@ TCE_RULES = Q_RULES + [
     Rule(r"#if !CELER_DEVICE_COMPILE.*?#endif", "", 1, flags=16, note="host logging block dropped (no effect on state)"),
     Rule(r"auto particle = track\.make_particle_view\(\);", "ParticleTrackView particle = CTV_make_particle_view(track);", 1, note="typed view handle"),
     Rule(r"auto sim = track\.make_sim_view\(\);", "SimTrackView sim = CTV_make_sim_view(track);", 1, note="typed view handle"),
-    Rule(r"auto deposited = particle\.energy\(\);", "real_type deposited = PTV_energy(&particle);", 1, note="auto -> real_type"),
+    Rule(r"auto deposited = ", "real_type deposited = ", "*", note="auto -> real_type"),
+    Rule(r"value_as<[\w:]+>\(", "(", "*", note="value_as<Q>(q) -> the real_type itself"),
+    Rule(r"particle\.total_energy\(\)", "PTV_total_energy(&particle)", "*", note="view member call (body: energy() + mass())"),
     Rule(r"track\.make_physics_step_view\(\)\.deposit_energy\(", "{ PhysicsStepView psv_ = CTV_make_physics_step_view(track); PSV_deposit_energy(&psv_, ", "*", note="temporary view member call"),
     Rule(r"(PSV_deposit_energy\(&psv_, [^;]*\));", r"\1; }", 1, note="close temporary scope"),
     Rule(r"particle\.subtract_energy\(particle\.energy\(\)\);", "PTV_subtract_energy(&particle, PTV_energy(&particle));", "*", note="view member calls"),
-    Rule(r"particle\.(is_antiparticle|mass)\(\)", r"PTV_\1(&particle)", "*", note="view member call"),
+    Rule(r"particle\.(is_antiparticle|mass|energy)\(\)", r"PTV_\1(&particle)", "*", note="view member call"),
     Rule(r"sim\.status\(TrackStatus::killed\);", "STV_status_set(&sim, TS_killed);", "*", note="view setter"),
 ]
 
@@ -280,6 +282,7 @@ TCE_RULES = Q_RULES + [
 def build_tracking_cut(ctx):
     pc = ctx.func(TCE, r"^TrackingCutExecutor::operator\(\)\(celeritas::CoreTrackView& track\)", TCE_RULES, name="TrackingCutExecutor::operator()")
     return (VHDR + """
+static real_type PTV_total_energy(ParticleTrackView const* self) { return self->t->energy + self->t->mass; }   /* ParticleTrackView::total_energy(): energy() + mass() */
 #define T0(f) __CPROVER_old(track->t->f)
 void TCE_call(CoreTrackView* track)
 __CPROVER_requires(VIEW_OK(track))
